@@ -83,8 +83,10 @@ static int h_openat(int dirfd, const char *name, int flags, ...)
 {
 	if (h_logging && dirfd != AT_FDCWD) {
 		size_t l = strlen(name);
-		out_str((flags & O_DIRECTORY) ? " d:" : " f:");
-		out_hex(name, l);
+		if (h_logging == 1) {		/* 2 = inject only (c3) */
+			out_str((flags & O_DIRECTORY) ? " d:" : " f:");
+			out_hex(name, l);
+		}
 		for (int i = 0; i < h_ninj; i++)
 			if (h_inj[i].len == l && memcmp(h_inj[i].name, name, l) == 0) {
 				errno = h_inj[i].err;
@@ -156,6 +158,16 @@ static int name_ok(const unsigned char *n, size_t l)
 	return 1;
 }
 
+static int count_fds(void)
+{
+	int n = 0;
+	DIR *d = opendir("/proc/self/fd");
+	if (!d) return -1;
+	while (readdir(d)) n++;
+	closedir(d);
+	return n;
+}
+
 #define BAD do { out_str("BADCASE"); goto done; } while (0)
 
 static void run_case(int nf, struct field *f)
@@ -171,11 +183,12 @@ static void run_case(int nf, struct field *f)
 		snprintf(h_base, sizeof(h_base), "%s/t.%ld", exe, (long)getpid());
 	}
 	h_ninj = 0;
-	if (nf != 7 || f[0].len != 1 || (f[0].p[0] != 0xc1 && f[0].p[0] != 0xc2)) { out_str("BADCASE"); return; }
+	if (nf != 7 || f[0].len != 1 || (f[0].p[0] < 0xc1 || f[0].p[0] > 0xc4)) { out_str("BADCASE"); return; }
 	const int op = f[0].p[0];
-	if (op == 0xc2 && f[6].len) { out_str("BADCASE"); return; }
+	if ((op == 0xc2 || op == 0xc3) && f[6].len) { out_str("BADCASE"); return; }
 	struct field *cdb = &f[1], *dom = &f[2], *lay = &f[3], *bnc = &f[4], *loc = &f[5], *tail = &f[6];
-	if (memchr(dom->p, 0, dom->len) || memchr(loc->p, 0, loc->len) || memchr(tail->p, 0, tail->len)) { out_str("BADCASE"); return; }
+	if (op != 0xc3 && (memchr(dom->p, 0, dom->len) || memchr(loc->p, 0, loc->len))) { out_str("BADCASE"); return; }
+	if (op != 0xc4 && memchr(tail->p, 0, tail->len)) { out_str("BADCASE"); return; }
 
 	rm_rf(h_base);
 	cwdfd = (open)(".", O_RDONLY);
@@ -258,9 +271,50 @@ static void run_case(int nf, struct field *f)
 
 	controldir_fd = get_dirfd(AT_FDCWD, "control");
 	if (userbackend_init() != 0) BAD;
-	if (op == 0xc2) {
+	if (op == 0xc3) {
+		/* a sequence of user_exists() calls on ONE struct userconf (as the global cache used for MAIL FROM):
+		 * domains and locals are lists of <len:1><bytes>, call i uses the i-th of each.
+		 * result: <rc>,<rc>,... <descriptors open at the end above the level before the first call> <the same after userconf_free()> */
 		struct userconf ds;
 		userconf_init(&ds);
+		size_t di = 0, li = 0; int n = 0, bad = 0;
+		int base = count_fds();
+		while (di < dom->len && li < loc->len && n < 64) {
+			size_t dl = dom->p[di++], ll = loc->p[li++];
+			if (di + dl > dom->len || li + ll > loc->len || memchr(dom->p + di, 0, dl) || memchr(loc->p + li, 0, ll)) { bad = 1; break; }
+			char *d = malloc(dl + 1); memcpy(d, dom->p + di, dl); d[dl] = 0;
+			char *l = malloc(ll + 1); memcpy(l, loc->p + li, ll); l[ll] = 0;
+			const string localpart = { .s = l, .len = ll };
+			errno = 0;
+			h_logging = 2;
+			int r = user_exists(&localpart, d, &ds);
+			h_logging = 0;
+			if (n) out_str(",");
+			out_int(r);
+			free(d); free(l);
+			di += dl; li += ll; n++;
+		}
+		if (bad || di != dom->len || li != loc->len || n == 0) { h_outlen = 0; if (h_outbuf) h_outbuf[0] = 0; out_str("BADCASE"); userconf_free(&ds); }
+		else {
+			out_str(" "); out_int(count_fds() - base);
+			userconf_free(&ds);
+			out_str(" "); out_int(count_fds() - base);
+		}
+	} else if (op == 0xc2 || op == 0xc4) {
+		struct userconf ds;
+		userconf_init(&ds);
+		/* c4: RCPT TO:<local@[iptext]>; tail = <localip> NUL <iptext>, the domain field is liphost */
+		struct field lit = { NULL, 0 };
+		if (op == 0xc4) {
+			unsigned char *z = memchr(tail->p, 0, tail->len);
+			if (!z || (size_t)(z - tail->p) >= sizeof(xmitstat.localip) || memchr(z + 1, 0, tail->len - (z + 1 - tail->p))) BAD;
+			memcpy(xmitstat.localip, tail->p, z - tail->p + 1);
+			lit.len = tail->len - (z + 1 - tail->p) + 2;
+			lit.p = malloc(lit.len + 1);
+			lit.p[0] = '['; memcpy(lit.p + 1, z + 1, lit.len - 2); lit.p[lit.len - 1] = ']'; lit.p[lit.len] = 0;
+			liphost.s = malloc(dom->len + 1); memcpy(liphost.s, dom->p, dom->len); liphost.s[dom->len] = 0; liphost.len = dom->len;
+			dom = &lit;
+		}
 		/* "local@domain>" as it stands in linein after "RCPT TO:<", rcpthosts = the lower-cased domain */
 		char *in = malloc(loc->len + dom->len + 3);
 		memcpy(in, loc->p, loc->len); in[loc->len] = '@'; memcpy(in + loc->len + 1, dom->p, dom->len);
@@ -294,6 +348,7 @@ static void run_case(int nf, struct field *f)
 		free(probes);
 		userconf_free(&ds);
 		free(addr.s); free(in); free(rh);
+		if (op == 0xc4) { free(lit.p); free(liphost.s); liphost.s = NULL; liphost.len = 0; xmitstat.localip[0] = 0; }
 	} else {
 		struct userconf ds;
 		userconf_init(&ds);
